@@ -14,7 +14,7 @@ import contextlib
 from pybufrkit.errors import PyBufrKitError
 from pybufrkit.coder import Coder, CoderState, BSRModifier
 from pybufrkit.tables import TableGroupKey, TableGroupCacheManager
-from pybufrkit.descriptors import Descriptor
+from pybufrkit.descriptors import Descriptor, AssociatedDescriptor, SkippedLocalDescriptor
 
 __all__ = ['loads_compiled_template', 'TemplateCompiler', 'CompiledTemplateManager', 'process_compiled_template']
 
@@ -84,6 +84,10 @@ class MethodCall(Statement):
         if len(self.args) > 0 and isinstance(self.args[0], Descriptor):
             d['args'] = (self.args[0].id,) + self.args[1:]
             d['with_descriptor'] = True
+            # Conceptual descriptors cannot be looked up from the tables by ID.
+            # Keep what is needed to re-create them on loading.
+            if isinstance(self.args[0], (AssociatedDescriptor, SkippedLocalDescriptor)):
+                d['conceptual_descriptor'] = [type(self.args[0]).__name__, self.args[0].nbits]
         else:
             d['args'] = self.args
             d['with_descriptor'] = False
@@ -467,7 +471,12 @@ def load_state_method_call_from_dict(table_group, d):
 
 def load_method_call_from_dict(method_type, table_group, d):
     if d.get('with_descriptor', False):
-        descriptor = table_group.lookup(d['args'][0])
+        conceptual_descriptor = d.get('conceptual_descriptor')
+        if conceptual_descriptor:
+            descriptor = CONCEPTUAL_DESCRIPTOR_TYPES[conceptual_descriptor[0]](
+                d['args'][0], conceptual_descriptor[1])
+        else:
+            descriptor = table_group.lookup(d['args'][0])
         args = tuple([descriptor] + d['args'][1:])
     else:
         args = tuple(d['args'])
@@ -482,6 +491,11 @@ def load_method_call_from_dict(method_type, table_group, d):
                        args=args,
                        state_properties=state_properties)
 
+
+CONCEPTUAL_DESCRIPTOR_TYPES = {
+    'AssociatedDescriptor': AssociatedDescriptor,
+    'SkippedLocalDescriptor': SkippedLocalDescriptor,
+}
 
 STATEMENT_LOAD_FUNCS = {
     'Loop': load_loop_from_dict,
